@@ -76,7 +76,94 @@ def c03(run):
                        "without in-syllable runs at any stage; non-trivial = the rule rewrites at least one segment")
 
 
+def ensure_corpus():
+    import corpus
+    corpus.build(os.path.join(BUILD, "corpus.json"))
+
+
+def tv_pipeline(run, nitems):
+    """I->S: loop events of run / trace_changes recorded from the real code, validated against TV_Pipeline"""
+    ensure_corpus()
+    trace = os.path.join(BUILD, "pipe-%s.ndjson" % run.pid)
+    summary, _ = run_harness(["record", "pipeline", trace, str(nitems)], env=run.known_env())
+    run.add_summary("record_pipeline", summary, traces=False)
+    res = run_tlc("TV_Pipeline", "tv/TV_Pipeline.tla", "tv/TV_Pipeline.cfg", env=dict(run.known_env(), TRACE=trace), timeout=3000, heap="10g")
+    run.add_tlc("TV_Pipeline", res, "I->S: every hook event of apply_rule_groups / apply_rules_trace must be enabled in the loop-nest machine; memo (rule, word) -> result stays a function "
+                                    "across run / permuted run / singleton runs / trace in one process; every returned value equals Pipeline!Run / Pipeline!Trace on memo")
+    rejected = [x for x in res.printed if isinstance(x, str) and "rejected_record" in x]
+    expected_states = summary["extra"].get("events", 0) + summary["vectors"] + summary["extra"].get("items", 0)
+    run.cov["jobs"]["TV_Pipeline"].update({"events": summary["extra"].get("events", 0), "calls": summary["vectors"], "records": summary["extra"].get("items", 0), "rejected": len(rejected)})
+    run.cov["traces_validated_against_impl"] += summary["vectors"]
+    metas = open(trace + ".meta").read().split("\n")
+    for x in rejected[:5]:
+        r = json.loads(x)
+        meta = json.loads(metas[r["rejected_record"] - 1]) if r["rejected_record"] - 1 < len(metas) else {}
+        run.violation("TV_Pipeline", {"rejected": r, "workload": meta})
+    if not rejected and res.distinct != expected_states:
+        raise ToolError("TV_Pipeline consumed %d states, expected %d (events + returns + records)" % (res.distinct, expected_states))
+    # the binding is real: a corrupted event must be rejected
+    lines = open(trace).read().split("\n")
+    rec = json.loads(lines[0])
+    done = False
+    for call in rec["calls"]:
+        for ev in call["events"]:
+            if ev[0] in ("RD", "TD") and not done:
+                ev[1] = ev[1] + 1000; done = True
+    if done:
+        corrupt = os.path.join(BUILD, "pipe-%s-corrupt.ndjson" % run.pid)
+        open(corrupt, "w").write(json.dumps(rec) + "\n")
+        res2 = run_tlc("TV_Pipeline_selftest", "tv/TV_Pipeline.tla", "tv/TV_Pipeline.cfg", env=dict(run.known_env(), TRACE=corrupt), timeout=600, workers=2)
+        ok = any(isinstance(x, str) and "rejected_record" in x for x in res2.printed)
+        run.cov["jobs"]["TV_Pipeline"]["selftest_corrupted_event_rejected"] = ok
+        if not ok:
+            raise ToolError("selftest: TV_Pipeline accepted a corrupted trace")
+    for f in (trace, trace + ".meta", os.path.join(BUILD, "pipe-%s-corrupt.ndjson" % run.pid)):
+        try: os.remove(f)
+        except OSError: pass
+
+
+def schedules(run, kinds, instances):
+    ensure_corpus()
+    res = run_tlc("GEN_Pipeline", "gen/GEN_Pipeline.tla", "gen/GEN_Pipeline_%s.cfg" % run.tier, env=dict(run.known_env(), VERIF_KINDS=kinds, VERIF_INSTANCES=instances),
+                  consumer=[HARNESS, "replay", "pipeline"], timeout=6000, workers=4)
+    run.add_tlc("GEN_Pipeline", res, "S->I: schedules (%s) enumerated exhaustively by TLC within the bound, each instantiated %d times with real rules (repository tests, "
+                                     "shipped Indo-European project) and words; the law checked on the real code" % (kinds, instances))
+
+
+def mc_pipeline(run):
+    mc_job(run, "MC_Pipeline", "mc/MC_Pipeline.tla", "mc/MC_Pipeline%s.cfg" % ("_thorough" if run.tier == "thorough" else ""),
+           "M: C10/C11/C16 laws and OkAgree for EVERY rule function F: 2 rules x 2 words x 2 error values, all group lists of <= %d groups of <= 2 rules, all phrases <= 2 words" % (3 if run.tier == "thorough" else 2))
+
+
+def c10(run):
+    run.assumptions += TRUSTED[:1] + ["the guard of the property (intermediate output reads back as the same word) is evaluated structurally through the hooks; cases failing it are counted, not judged",
+                                      "rule and word pools: repository tests + shipped IE project; slots are instantiated with a seeded generator"]
+    mc_pipeline(run)
+    mc_job(run, "MC_Stage", "mc/MC_Stage.tla", "mc/MC_Stage.cfg", "M: staging with the americanist flag explicit: holds for inputs not spelled americanist; the boundary of C10-KF1")
+    r = run_tlc("MC_Stage_refute", "mc/MC_Stage.tla", "mc/MC_Stage_refute.cfg", timeout=600, expect_violation=True)
+    run.add_tlc("MC_Stage_refute", r, "M: unrestricted staging law is refuted at model level (americanist flag) - reproduced on the real code by the probe in the replay (C10-KF1)")
+    run.cov["jobs"]["MC_Stage_refute"]["refuted_as_expected"] = r.invariant_violated == "Compose"
+    schedules(run, "c10", 12 if run.tier == "thorough" else 12)
+
+
+def c11(run):
+    run.assumptions += TRUSTED[:1] + ["'first failing word' is read per pipeline phase (aliases, words, rule syntax, then runtime in word order), see DESIGN.md C11"]
+    mc_pipeline(run)
+    schedules(run, "c11", 40 if run.tier == "thorough" else 100)
+    tv_pipeline(run, 6000 if run.tier == "thorough" else 1200)
+
+
+def c16(run):
+    run.assumptions += TRUSTED[:1]
+    mc_pipeline(run)
+    schedules(run, "c16", 30 if run.tier == "thorough" else 60)
+    tv_pipeline(run, 6000 if run.tier == "thorough" else 1200)
+
+
 PROPS = {
+    "C10": (c10, "model_checking"),
+    "C11": (c11, "model_checking"),
+    "C16": (c16, "model_checking"),
     "C03": (c03, "model_checking"),
     "C05": (c05, "model_checking"),
     "C18": (c18, "model_checking"),
